@@ -34,6 +34,11 @@ def run(report):
         "derivatives, integrals, indexed sums/products, averages/differentials, Order terms, applications of undefined "
         "functions, quantities and indexed symbols are value-opaque atoms keyed by their canonical form and independent of "
         "each other")
+    report.assume(
+        "a canonical (imported) form is an obligation only if every node lies in the expression space the property states for "
+        "canonical forms (symbols, numbers, rationals, pi/E/I, named quantity constants, + * ^, elementary functions); the "
+        "other canonical forms are rendered and validated too, but reported as observations under "
+        "coverage.canonical_outside_stated_space; every documented SOURCE form is an obligation")
     report.explanation = (
         "programs = renderings validated (well-formedness + one for-all-values equivalence each); a rendering whose reading "
         "needs a construct outside the reader, or whose atoms share a display name, is listed under out_of_reach and not "
